@@ -111,6 +111,14 @@ def node_of_point(part, pt):
 
 
 # ------------------------------------------------------------------ per-algorithm adapters
+def _ctor(p, cls, **kw):
+    """call the real constructor; arguments listed in p["_omit"] are left out, so that the library's own defaults (and its
+    handling of absent / None arguments) are what runs"""
+    for k_ in p.get("_omit", ()):
+        kw.pop(k_, None)
+    return cls(**kw)
+
+
 class Adapter:
     name = None
 
@@ -156,7 +164,7 @@ class HOOAd(Adapter):
 
     def construct(self, p, box, pcls):
         from PyXAB.algos.HOO import T_HOO
-        return T_HOO(nu=p["nu"], rho=p["rho"], rounds=p["rounds"], domain=box, partition=pcls)
+        return _ctor(p, T_HOO, nu=p["nu"], rho=p["rho"], rounds=p["rounds"], domain=box, partition=pcls)
 
     def init_line(self, p, kind, K, box, calls):
         return f"HOO.init {kind_str(kind, K)} {box_str(box)} {fbits(p['nu'])} {fbits(p['rho'])} {p['rounds']} {draws_str(calls)}", "ok"
@@ -185,15 +193,15 @@ class HCTAd(Adapter):
         p = {"nu": rnd.choice([1.0, 0.5, 2.0, 1.0]), "rho": rnd.choice([0.5, 0.25, 0.75, 0.6]),
              "c": rnd.choice([0.1, 0.05, 0.2, 0.5, 1.0]), "delta": rnd.choice([0.01, 0.1, 0.001, 0.5, 0.9, 0.99])}
         if self.variance:
-            p["bound"] = rnd.choice([1.0, 1.0, 2.0, 0.5])
+            p["bound"] = rnd.choice([1.0, 1.0, 2.0, 0.5, 0.0])      # 0: a noise-free objective
         return p
 
     def construct(self, p, box, pcls):
         if self.variance:
             from PyXAB.algos.VHCT import VHCT
-            return VHCT(nu=p["nu"], rho=p["rho"], c=p["c"], delta=p["delta"], bound=p["bound"], domain=box, partition=pcls)
+            return _ctor(p, VHCT, nu=p["nu"], rho=p["rho"], c=p["c"], delta=p["delta"], bound=p["bound"], domain=box, partition=pcls)
         from PyXAB.algos.HCT import HCT
-        return HCT(nu=p["nu"], rho=p["rho"], c=p["c"], delta=p["delta"], domain=box, partition=pcls)
+        return _ctor(p, HCT, nu=p["nu"], rho=p["rho"], c=p["c"], delta=p["delta"], domain=box, partition=pcls)
 
     def init_line(self, p, kind, K, box, calls, algo=None):
         c1 = algo.c1 if algo is not None else (p["rho"] / (3 * p["nu"])) ** 0.125
@@ -227,6 +235,9 @@ def sw_str(with_b):
 class SOOAd(Adapter):
     name = "SOO"
 
+    def defaults(self, T):
+        return {"n": 100, "h_max": 100}
+
     def outside(self, meta):
         return "depth cap smaller than the number of rounds" if meta["params"]["h_max"] < meta["T"] else None
 
@@ -235,7 +246,7 @@ class SOOAd(Adapter):
 
     def construct(self, p, box, pcls):
         from PyXAB.algos.SOO import SOO
-        return SOO(n=p["n"], h_max=p["h_max"], domain=box, partition=pcls)
+        return _ctor(p, SOO, n=p["n"], h_max=p["h_max"], domain=box, partition=pcls)
 
     def init_line(self, p, kind, K, box, calls):
         return f"SOO.init {kind_str(kind, K)} {box_str(box)} {p['h_max']}", "ok"
@@ -248,6 +259,9 @@ class SOOAd(Adapter):
 
 class DOOAd(Adapter):
     name = "DOO"
+
+    def defaults(self, T):
+        return {"n": 100}
 
     @staticmethod
     def tab(p):
@@ -274,7 +288,7 @@ class DOOAd(Adapter):
         if "delta_c" in p:
             tab = self.tab(p)
             return DOO(n=p["n"], delta=lambda h: tab[h], domain=box, partition=pcls)
-        return DOO(n=p["n"], domain=box, partition=pcls)
+        return _ctor(p, DOO, n=p["n"], domain=box, partition=pcls)
 
     def init_line(self, p, kind, K, box, calls, algo=None):
         r0 = algo.partition.get_root().reward if algo is not None else float("-inf")
@@ -307,6 +321,7 @@ class StoSOOAd(Adapter):
             p["k"] = rnd.choice([1, 1, 2, 3, 5])
         if rnd.random() < 0.3:
             p["delta"] = rnd.choice([0.1, 0.01, 0.5])
+        p["_explicit_none"] = rnd.random() < 0.5
         return p
 
     def fix_T(self, p, T):
@@ -314,7 +329,12 @@ class StoSOOAd(Adapter):
 
     def construct(self, p, box, pcls):
         from PyXAB.algos.StoSOO import StoSOO
-        return StoSOO(n=p["n"], k=p.get("k"), h_max=p["h_max"], delta=p.get("delta"), domain=box, partition=pcls)
+        kw_ = dict(n=p["n"], h_max=p["h_max"], domain=box, partition=pcls)
+        if "k" in p or p.get("_explicit_none"):
+            kw_["k"] = p.get("k")
+        if "delta" in p or p.get("_explicit_none"):
+            kw_["delta"] = p.get("delta")          # absent optional arguments are sometimes written as None, sometimes left out
+        return _ctor(p, StoSOO, **kw_)
 
     def init_line(self, p, kind, K, box, calls, algo=None):
         L = np.log(algo.n * algo.k / algo.delta)
@@ -338,6 +358,9 @@ def sq_str(nd):
 class SequOOLAd(Adapter):
     name = "SequOOL"
 
+    def defaults(self, T):
+        return {"n": 1000}
+
     def no_candidate(self, a):
         return len(a.chosen) == 0
 
@@ -346,7 +369,7 @@ class SequOOLAd(Adapter):
 
     def construct(self, p, box, pcls):
         from PyXAB.algos.SequOOL import SequOOL
-        return SequOOL(n=p["n"], domain=box, partition=pcls)
+        return _ctor(p, SequOOL, n=p["n"], domain=box, partition=pcls)
 
     def init_line(self, p, kind, K, box, calls, algo=None):
         return f"SequOOL.init {kind_str(kind, K)} {box_str(box)} {p['n']} {algo.h_max}", "ok"
@@ -398,6 +421,9 @@ LEARNER_ADS = {"T_HOO": HOOAd(), "HCT": HCTAd(), "VHCT": VHCTAd()}
 class POOAd(Adapter):
     name = "POO"
 
+    def defaults(self, T):
+        return {"numax": 1, "rhomax": 0.9, "rounds": 1000}
+
     def no_candidate(self, a):
         return len(a.V_reward) == 0
 
@@ -408,8 +434,8 @@ class POOAd(Adapter):
     def construct(self, p, box, pcls):
         from PyXAB.algos.POO import POO
         self.log = {"created": [], "events": []}
-        a = POO(numax=p["numax"], rhomax=p["rhomax"], rounds=p["rounds"], domain=box, partition=pcls,
-                algo=recording_base(p["base"], self.log))
+        a = _ctor(p, POO, numax=p["numax"], rhomax=p["rhomax"], rounds=p["rounds"], domain=box, partition=pcls,
+                  algo=recording_base(p["base"], self.log))
         a._log = self.log
         a._deltas = {}
         a._touched = None
@@ -459,6 +485,9 @@ class POOAd(Adapter):
 
 class GPOAd(Adapter):
     name = "GPO"
+
+    def defaults(self, T):
+        return {"numax": 1, "rhomax": 0.9, "rounds": 1000}
     wrapper = None     # "PCT" / "VPCT" for the fixed-base wrappers
 
     def gen_params(self, rnd, T):
@@ -481,12 +510,12 @@ class GPOAd(Adapter):
             saved = getattr(m, p["base"])
             setattr(m, p["base"], rec)
             try:
-                a = getattr(m, self.wrapper)(numax=p["numax"], rhomax=p["rhomax"], rounds=p["rounds"], domain=box, partition=pcls)
+                a = _ctor(p, getattr(m, self.wrapper), numax=p["numax"], rhomax=p["rhomax"], rounds=p["rounds"], domain=box, partition=pcls)
             finally:
                 setattr(m, p["base"], saved)
         else:
             from PyXAB.algos.GPO import GPO
-            a = GPO(numax=p["numax"], rhomax=p["rhomax"], rounds=p["rounds"], domain=box, partition=pcls, algo=rec)
+            a = _ctor(p, GPO, numax=p["numax"], rhomax=p["rhomax"], rounds=p["rounds"], domain=box, partition=pcls, algo=rec)
         a._log = self.log
         a._deltas = {}
         a._created_seen = 0
@@ -551,7 +580,7 @@ class ZoomingAd(Adapter):
 
     def construct(self, p, box, pcls):
         from PyXAB.algos.Zooming import Zooming
-        a = Zooming(nu=p["nu"], rho=p["rho"], domain=box, partition=pcls)
+        a = _ctor(p, Zooming, nu=p["nu"], rho=p["rho"], domain=box, partition=pcls)
         a._adelta = Delta()
         return a
 
@@ -623,7 +652,7 @@ class VROOMAd(Adapter):
             VM.VROOM_node._verif_wrapped = True
         if pcls._kind in ("kary", "randKary") and pcls._K > 2:
             p["n"] = min(p["n"], 20)
-        return VM.VROOM(n=p["n"], h_max=p["h_max"], b=p["b"], f_max=p["f_max"], domain=box, partition=pcls)
+        return _ctor(p, VM.VROOM, n=p["n"], h_max=p["h_max"], b=p["b"], f_max=p["f_max"], domain=box, partition=pcls)
 
     def init_line(self, p, kind, K, box, calls, algo=None):
         a = algo
@@ -711,7 +740,7 @@ class StroquOOLAd(Adapter):
 
     def construct(self, p, box, pcls):
         from PyXAB.algos.StroquOOL import StroquOOL
-        return StroquOOL(n=p["n"], domain=box, partition=pcls)
+        return _ctor(p, StroquOOL, n=p["n"], domain=box, partition=pcls)
 
     def init_line(self, p, kind, K, box, calls, algo=None):
         return f"StroquOOL.init {kind_str(kind, K)} {box_str(box)} {p['n']} {algo.h_max} {algo.p_max}", "ok"
@@ -757,7 +786,10 @@ def gen_algo_case(seed, idx, algo=None, force=None, monitors_on=True, T=None, ho
     qmode = force.get("qmode") or rnd.choice(["mixed", "dyadic", "random", "end", "half"])
     params = force.get("params") or ad.gen_params(rnd, T)
     if not force.get("params") and hasattr(ad, "defaults") and rnd.random() < 0.3:
-        params.update(ad.defaults(T))          # the library's default arguments are the most used configuration
+        dflt_ = ad.defaults(T)
+        params.update(dflt_)                   # the library's default arguments are the most used configuration
+        if rnd.random() < 0.7:
+            params["_omit"] = sorted(dflt_)    # ... and are usually not written at all
         case_defaults = True
     else:
         case_defaults = False
